@@ -443,6 +443,12 @@ func run() int {
 		}
 		if !*flagNoReplay {
 			hr.Validation = rp.validate(ld, hr, tier)
+			if hr.Validation != nil && hr.Validation.Mismatches > 0 && *flagVerbose {
+				fmt.Fprintf(os.Stderr, "translator validation of %s: error=%q\n", hr.Spec.Name, hr.Validation.Error)
+				for _, s := range hr.Validation.Samples {
+					fmt.Fprintln(os.Stderr, "  ", s)
+				}
+			}
 			if hr.Validation != nil && hr.Validation.Mismatches > 0 {
 				hr.Inconclusive = append(hr.Inconclusive, fmt.Sprintf("translator validation: %d concrete vectors disagree between the engine and the native build", hr.Validation.Mismatches))
 			}
